@@ -64,6 +64,7 @@ func (this *Allocator) watch(partition *partition) {
 
 	if _, exists := this.partitions[partition.id]; !exists {
 		this.partitions[partition.id] = partition
+		verifPoint("allocator.watch.locked", partition.id)
 		this.updatesC <- &watchPartitionUpdate{partition}
 	}
 }
@@ -74,6 +75,7 @@ func (this *Allocator) unwatch(id uuid.UUID) {
 
 	if partition, exists := this.partitions[id]; exists {
 		delete(this.partitions, id)
+		verifPoint("allocator.unwatch.locked", id)
 		this.updatesC <- &unwatchPartitionUpdate{partition}
 	}
 }
